@@ -233,6 +233,10 @@ type tmoCase struct {
 	focus   string
 	extra   []*Sx
 	codes   []int
+	// slow: a control in which the Rcpt callback takes tmoSlowRcpt, the client waits for the 354 and then
+	// pauses tmoSlowPause before the rest: each wait is shorter than the time-out (tmoSlowTimeout), their sum
+	// is longer - the deadline must have been re-armed when the DATA command was read
+	slow bool
 }
 
 const (
@@ -240,6 +244,9 @@ const (
 	tmoCtlTimeout  = 3000 * time.Millisecond // control cases: same scripts, nothing may expire
 	tmoCtlPause    = 120 * time.Millisecond
 	tmoClientGuard = 6 * time.Second
+	tmoSlowTimeout = 1600 * time.Millisecond
+	tmoSlowRcpt    = 1000 * time.Millisecond
+	tmoSlowPause   = 1000 * time.Millisecond
 )
 
 func runTmo(tc tmoCase) *Sx {
@@ -254,6 +261,10 @@ func runTmo(tc tmoCase) *Sx {
 	tmo := tmoTimeout
 	if !tc.expire {
 		tmo = tmoCtlTimeout
+	}
+	if tc.slow {
+		tmo = tmoSlowTimeout
+		be.RcptDelay = tmoSlowRcpt
 	}
 	s.ReadTimeout = tmo
 
@@ -320,6 +331,11 @@ func finishTmo(tc tmoCase, be *RecBackend, s *smtp.Server, lg *logWriter, client
 					ok = false
 				}
 			}
+		} else if tc.slow {
+			step = "go-ahead"
+			want := 1 + tc.nBefore
+			ok = cl.wait(func(b []byte) bool { return finalReplies(b) >= want }, tmoClientGuard)
+			time.Sleep(tmoSlowPause)
 		} else {
 			time.Sleep(tmoCtlPause)
 		}
@@ -494,6 +510,20 @@ func GenTmo(rng *rand.Rand, thorough bool, emit func(*Sx)) {
 						cases = append(cases, tc)
 					}
 				}
+			}
+			// ---- DATA, slow but never idle for a whole time-out (control) ----
+			if round == 0 {
+				k := len(head)
+				tc := tmoCase{cfg: cfg, plan: DefaultPlan(), slow: true, focus: "C02",
+					first: env + "DATA\r\n" + body[:k], rest: body[k:] + ".\r\n" + after,
+					nBefore: len(envCodes) - 1 + 1, nFinal: nr, name: fmt.Sprintf("data-%s-slow", fl.name)}
+				if !fl.lmtp {
+					tc.nFinal = 1
+				}
+				tc.codes = cat(envCodes, []int{354}, rep(250, tc.nFinal), afterCodes)
+				tc.extra = append(tc.extra, L(A("must-mail"), XS("after@ok")), L(A("for"), A("C01"), L(A("expect-data"), XS(body), A("eof"))),
+					L(A("for"), A("C02"), L(A("must-not-mail"), XS("bait@evil"))))
+				cases = append(cases, tc)
 			}
 			// ---- BDAT, accepted chunk ----
 			chead := "first part of the chunk\r\n"
